@@ -13,6 +13,7 @@ import (
 	"os"
 	"path/filepath"
 	"runtime/debug"
+	"sort"
 	"strings"
 	"sync/atomic"
 	"time"
@@ -293,4 +294,42 @@ func (inst *Instance) EnsureBucket(name string) error {
 		return nil
 	}
 	return inst.Backend.CreateBucket(name)
+}
+
+// BucketTree returns the directories and regular files (slash paths relative to the bucket's
+// own directory) that the fs backends keep for a bucket, read from the underlying filesystem.
+func (i *Instance) BucketTree(bucket string) (dirs, files []string, err error) {
+	var fs afero.Fs
+	root := "."
+	switch i.Kind {
+	case "fsM-mem":
+		fs, root = i.memFs, "buckets/"+bucket
+	case "fsM-dir":
+		fs, root = afero.NewBasePathFs(afero.NewOsFs(), filepath.Join(i.Dir, "root")), "buckets/"+bucket
+	case "fsS-mem":
+		fs = i.memFs
+	case "fsS-dir":
+		fs = afero.NewBasePathFs(afero.NewOsFs(), filepath.Join(i.Dir, "bucket"))
+	default:
+		return nil, nil, fmt.Errorf("not an fs backend")
+	}
+	err = afero.Walk(fs, root, func(p string, info os.FileInfo, werr error) error {
+		if werr != nil {
+			return werr
+		}
+		rel, rerr := filepath.Rel(root, p)
+		if rerr != nil || rel == "" || rel == "." {
+			return nil
+		}
+		rel = filepath.ToSlash(rel)
+		if info.IsDir() {
+			dirs = append(dirs, rel)
+		} else {
+			files = append(files, rel)
+		}
+		return nil
+	})
+	sort.Strings(dirs)
+	sort.Strings(files)
+	return dirs, files, err
 }
